@@ -7,7 +7,7 @@ exec 9>"$HOME/.sccv_repo.lock"; flock 9; export SCCV_REPO_LOCK_HELD=1 SCCV_SEEDE
 cd /repo || exit 2
 git diff --quiet || { echo "repo not clean"; exit 2; }
 git apply "$P" || { echo "patch does not apply"; exit 2; }
-trap 'git -C /repo checkout -- . ' EXIT
+trap 'git -C /repo checkout -- . ; git -C /repo clean -fdq' EXIT   # clean: a change may add files
 if [ -z "$SKIP_TESTS" ]; then
   T=$(timeout 1200 cargo test --workspace --no-fail-fast --offline 2>&1 | grep -E "^test result" | awk '{p+=$4; f+=$6} END {print p" passed "f" failed"}')
   echo "repo tests with patch: $T"
